@@ -226,7 +226,7 @@ func (DidOracle) NonTrivial(w *world.World, ctx sdk.Context, s *engine.State) bo
 func C17Scenario(tier string) *engine.Scenario {
 	d := 4
 	if tier == "thorough" {
-		d = 5
+		d = 6
 	}
 	sc := &engine.Scenario{ID: "C17-did", Depth: d, Oracle: DidOracle{}}
 	sc.Roots = []engine.Root{{Name: "D0", Setup: func(w *world.World) []engine.SetupStep { return nil }}}
